@@ -14,17 +14,25 @@ def extract(lang, text):
     return EXTRACT[lang].extract(text)
 
 
-def generate(sources, langs=None, cfgs=None, chunk=20000, multi=False, extra_files=None):
+def generate(sources, langs=None, cfgs=None, chunk=20000, multi=False, extra_files=None, mixed=True):
     """sources: list of Rust source strings. Returns [{lang: result}] where result is
     {"status": ok|error|panic|abort|unreadable, "obs": observation, "text": output, "errors"/"panic": ...}"""
     langs = langs or common.LANGS
     jobs = []
+    folder_flags = []
+    import hashlib, os as _os
+    force = _os.environ.get("VERIF_FORCE_FOLDER")          # experiment switch: 1 = every case in folder mode
     for i, src in enumerate(sources):
         for lang in langs:
             cfg = dict(DEFAULT_CFG[lang])
             if cfgs:
                 cfg.update(cfgs[i].get(lang, {}) if isinstance(cfgs, list) else cfgs.get(lang, {}))
-            if multi:       # folder-output mode of the library: one crate "cratex", output keyed by the crate name
+            # one case in four (chosen by the source text, so a replay takes the same path) goes through folder-output mode:
+            # the definitions of a crate are the same in both modes (C14), so every check also exercises that code path
+            mixed = int(hashlib.sha1(src.encode()).hexdigest()[:2], 16) % 4 == 0 and force != "0" and mixed
+            folder = multi or ((force == "1" or mixed) and lang != "go" and not extra_files)
+            folder_flags.append(folder)
+            if folder:       # folder-output mode of the library: one crate "cratex", output keyed by the crate name
                 jobs.append({"id": len(jobs), "lang": lang, "multi_file": True, "cfg": cfg,
                              "files": [{"src": src, "crate": "cratex", "path": "cratex/src/lib.rs", "out": "cratex"}] + (extra_files[i] if extra_files else [])})
             else:
@@ -40,7 +48,7 @@ def generate(sources, langs=None, cfgs=None, chunk=20000, multi=False, extra_fil
             r = results[k]
             k += 1
             if r["status"] == "ok":
-                text = r["outputs"].get("cratex" if multi else "", "")
+                text = r["outputs"].get("cratex" if folder_flags[k - 1] else "", "")
                 try:
                     per[lang] = {"status": "ok", "obs": extract(lang, text), "text": text}
                 except (ExtractError, LexError, RecursionError) as e:
